@@ -62,6 +62,10 @@ def work(job):
                     if codec == 'xer' and has_none_in_list(t1, want):
                         part.known_finding('C07-xer-list-element-unknown', 'xer SEQUENCE OF CHOICE/ENUMERATED with an alternative/item unknown to V1 raises DecodeError (decode_of is not extension-aware)')
                         continue
+                    if codec in ('per', 'uper') and len(r[1]) > 16384:
+                        # an unknown addition whose open type is longer than 16384 octets (never produced by the generator today)
+                        part.known_finding('C07-per-unknown-addition-16k', '%s: V1 skips an unknown extension addition of more than 16384 octets by the wrong amount' % codec)
+                        continue
                     part.violation('%s: a V2 encoding does not decode under V1 to the V1 projection' % codec,
                                    {'codec': codec, 'v1': text1, 'v2': text2, 'value_v2': repr(v2), 'encoded': r[1].hex() if codec not in ('jer', 'xer') else r[1].decode('utf-8', 'replace'),
                                     'expected_v1': repr(want)[:1500], 'got': repr(d[1:])[:1500], 'steps': nsteps})
@@ -174,6 +178,24 @@ def run(ctx):
         ctx.notes.append('stale finding: C07-xer-list-element-unknown no longer reproduces')
     else:
         ctx.known_finding('C07-xer-list-element-unknown', 'witness SEQUENCE OF CHOICE { n NULL, ... } cannot read a V2 alternative (%s)' % d[1])
+    # witness of the known finding C07-per-unknown-addition-16k (theorem side: C07p forward_per_needs_skipFree)
+    v1 = 'M DEFINITIONS AUTOMATIC TAGS ::= BEGIN A ::= SEQUENCE { a INTEGER (0..255), ... } S ::= SEQUENCE { x A, y INTEGER (0..255) } END'
+    v2 = 'M DEFINITIONS AUTOMATIC TAGS ::= BEGIN A ::= SEQUENCE { a INTEGER (0..255), ..., b OCTET STRING } S ::= SEQUENCE { x A, y INTEGER (0..255) } END'
+    for codec in ('per', 'uper'):
+        s1, s2 = impl.compile_text(v1, codec)[1], impl.compile_text(v2, codec)[1]
+        for n_oct, must_hold in ((16382, True), (16383, False)):
+            e = impl.encode(s2, 'S', {'x': {'a': 5, 'b': b'\xaa' * n_oct}, 'y': 77})
+            d = impl.decode(s1, 'S', e[1]) if e[0] == 'ok' else e
+            ok = d[0] == 'ok' and d[1] == {'x': {'a': 5}, 'y': 77}
+            ctx.case(('witness-16k', codec, n_oct))
+            if must_hold and not ok:
+                ctx.violation('%s: V1 does not skip an unknown addition whose open type is exactly 16384 octets long' % codec,
+                              {'codec': codec, 'v1': v1, 'v2': v2, 'octets_in_b': n_oct, 'got': repr(d[1:])[:300]})
+            elif not must_hold and ok:
+                ctx.notes.append('stale finding: C07-per-unknown-addition-16k no longer reproduces (%s)' % codec)
+            elif not must_hold:
+                ctx.known_finding('C07-per-unknown-addition-16k', 'witness %s: S.x.b of 16383 octets (open type 16385 octets, written unfragmented) makes a V1 reader return %s instead of y = 77'
+                                  % (codec, repr(d[1:])[:80]))
 
 
 def replay(ctx, path):
